@@ -30,8 +30,9 @@ impl Head {
 
     pub fn write(&mut self, data: &[u8]) -> Result<(), IoError> {
         fail_point!("write-head");
-        // handles cached for `retrieve` share this file's cursor
-        self.file.seek(SeekFrom::End(0))?;
+        // handles cached for `retrieve` share this file's cursor; bytes left behind by a write
+        // that failed half-way lie beyond `bytes` and are overwritten
+        self.file.seek(SeekFrom::Start(self.bytes))?;
         self.file.write_all(data)?;
         self.bytes += data.len() as u64;
         Ok(())
@@ -148,7 +149,11 @@ impl FreezerFiles {
         }
 
         self.head.write(data)?;
-        self.write_index(self.head_id, self.head.bytes)?;
+        if let Err(e) = self.write_index(self.head_id, self.head.bytes) {
+            // the item is not recorded: its bytes must not become part of the next one
+            self.head.bytes -= data_size as u64;
+            return Err(e);
+        }
         self.number.fetch_add(1, Ordering::SeqCst);
 
         if let Some(metrics) = ckb_metrics::handle() {
@@ -296,7 +301,9 @@ impl FreezerFiles {
     fn write_index(&mut self, file_id: FileId, offset: u64) -> Result<(), IoError> {
         fail_point!("write-index");
         let index = IndexEntry { file_id, offset };
-        self.index.seek(SeekFrom::End(0))?;
+        // a partial entry left behind by a failed write is overwritten
+        self.index
+            .seek(SeekFrom::Start(self.number() * INDEX_ENTRY_SIZE))?;
         self.index.write_all(&index.encode())?;
         Ok(())
     }
